@@ -220,8 +220,12 @@ func cmdDump(args []string) {
 			fmt.Printf(" b%d (%s) -> %s\n", b.Index, b.Comment, strings.Join(succ, " , "))
 			for _, in := range b.Instrs {
 				if v, ok := in.(ssa.Value); ok {
-					switch in.(type) {
+					switch x := in.(type) {
 					case *ssa.Call, *ssa.Select:
+					case *ssa.UnOp:
+						if x.Op.String() != "<-" {
+							continue
+						}
 					default:
 						_ = v
 						continue
